@@ -26,13 +26,14 @@ func (s *vSink) Write(p []byte) (int, error) {
 }
 
 type vRun struct {
-	sink    *vSink
-	alerts  []int
-	w       Writer
-	P, W    int
-	size    int
-	start   uint64
-	written int
+	sink          *vSink
+	alerts        []int
+	w             Writer
+	P, W          int
+	size          int
+	start         uint64
+	written       int
+	firstProducer int
 }
 
 func vStartDiode(poller bool, P, W, size int, fresh bool) *vRun {
@@ -40,6 +41,15 @@ func vStartDiode(poller bool, P, W, size int, fresh bool) *vRun {
 	interval := time.Duration(0)
 	if poller {
 		interval = time.Millisecond
+	}
+	// native schedule replay: engine thread ids in creation order (waiter: T1 = cancel watcher,
+	// T2 = poll loop; poller: T1 = poll loop); producers follow
+	r.firstProducer = 2
+	if !poller {
+		zzverif.ExpectThread(2) // only the poll loop yields at instrumented points
+		r.firstProducer = 3
+	} else {
+		zzverif.ExpectThread(1)
 	}
 	r.w = NewWriter(r.sink, size, interval, func(missed int) { r.alerts = append(r.alerts, missed) })
 	if fresh {
@@ -60,6 +70,7 @@ func (r *vRun) produce() {
 		wg.Add(1)
 		p := p
 		go func() {
+			zzverif.RegisterThread(r.firstProducer + p)
 			for i := 0; i < r.W; i++ {
 				n, err := r.w.Write([]byte{byte('A' + p), byte('0' + i)})
 				zzverif.Assert(n == 2 && err == nil, "C10: Write reports the full length")
@@ -68,6 +79,7 @@ func (r *vRun) produce() {
 		}()
 	}
 	wg.Wait()
+	zzverif.Yield("wg.Wait/resume")
 	r.written = r.P * r.W
 }
 
